@@ -448,6 +448,13 @@ class Registry:
         modfr = X.Frame({}, fi, fi.cls, module=fi.module)
         env = it.bind(fi.node, list(args), dict(kwargs), fr, node, modfr)
         cf = X.Frame(env, fi, fi.cls, module=fi.module)
+        if c.get("for_class") and isinstance(env.get("self"), Ref):
+            # an inherited method whose effect is stated per receiver class (field names differ between subclasses)
+            rc = getattr(run.obj(env["self"]), "cls", None)
+            rc = rc.split(":")[-1] if isinstance(rc, str) else getattr(rc, "name", None)
+            if rc in c["for_class"]:
+                c = dict(c)
+                c.update(c["for_class"][rc])
         tags = c["tags"]
         cname = fi.qualname.split(":")[1]
         for i, r in enumerate(c["requires"]):
